@@ -182,12 +182,13 @@ theorem filter_is_lazy (f : Nat) (env : Env) (a b : Expr) (σ σ1 σ2 : St) (it 
        { σ2 with nextId := σ2.nextId + 1 }) := by
   simp only [eval, bind_def, ha, hb, hr]; rfl
 
-theorem type_filter_is_lazy (f : Nat) (env : Env) (a : Expr) (t : Ty) (σ σ1 : St) (it d : Val)
-    (ha : eval f env a σ = (.ok it, σ1)) (hd : ofType t = some d) :
+theorem type_filter_is_lazy (f : Nat) (env : Env) (a : Expr) (t : Ty) (σ σ1 : St) (it : Val)
+    (ha : eval f env a σ = (.ok it, σ1)) :
     eval (f + 1) env (.tfilter a t) σ =
-      (.ok (.fn σ1.nextId [] (.tup [.bool, t]) (typeFilterBody t) [("iterator", it), ("default", d)] none),
+      (.ok (.fn σ1.nextId [] (.tup [.bool, t]) (typeFilterBody t)
+              [("iterator", it), ("default", (ofType t).getD .unit)] none),
        { σ1 with nextId := σ1.nextId + 1 }) := by
-  simp only [eval, bind_def, ha, hd]; rfl
+  simp only [eval, bind_def, ha]; rfl
 
 /-- one pull of a mapped iterator is: one pull of the source, and — only if that yielded an
     element — one call of the mapper on it (`mapBody`, the closure text of bin_op/map.rs) -/
